@@ -141,7 +141,7 @@ Definition c05_ok : bool :=
       outputs_closed ms && forallb complete (seq 0 nobs) && lz_eqb (calls c) calls_expected
     else true) &&
    match st with
-   | STake n => Nat.leb (length (sent_on 0 ms)) (Z.to_nat n + icap0)   (* no more than n elements consumed *)
+   | STake n => Z.leb (Z.of_nat (length (sent_on 0 ms))) (Z.max n 0 + Z.of_nat icap0)   (* no more than n elements consumed *)
    | _ => true
    end).
 
